@@ -196,19 +196,43 @@ var reEP = regexp.MustCompile(`ep-(\d+)-(tcp|udp)`)
 
 // c12Run runs one fault assignment against the real client and returns the observed result and the
 // attempts log.
-func c12Run(tcpBeh, udpBeh []string, limit int) (res string, attempts []string, reqLen int) {
+var c12DNS *verifDNS
+var c12DNSRealms int64
+
+// srv == "": the KDCs are listed in the configuration. Otherwise the realm has no kdc entries and
+// dns_lookup_kdc = true: its KDCs are published as SRV records for the transports named in srv ("tcp", "udp",
+// "tcp+udp"); a transport without a record has no servers.
+func c12Run(tcpBeh, udpBeh []string, limit int, srv string) (res string, attempts []string, reqLen int) {
 	realm := "Test.GoKrb5" // realm names are case sensitive: the configured name is looked up as it is written
 	var logMu sync.Mutex
 	var kdcs []*scriptedKDC
 	conf := fmt.Sprintf("[libdefaults]\n default_realm = %s\n dns_lookup_kdc = false\n udp_preference_limit = %d\n[realms]\n %s = {\n", realm, limit, realm)
+	if srv != "" {
+		realm = fmt.Sprintf("DNS%d.VERIF", atomic.AddInt64(&c12DNSRealms, 1))
+		conf = fmt.Sprintf("[libdefaults]\n default_realm = %s\n dns_lookup_kdc = true\n udp_preference_limit = %d\n[realms]\n OTHER.REALM = {\n", realm, limit)
+	}
+	var ports []int
 	for i := range tcpBeh {
 		port, l, u := reservePort()
 		k := &scriptedKDC{idx: i, port: port, tcpBeh: tcpBeh[i], udpBeh: udpBeh[i], l: l, u: u, stop: make(chan struct{}), attempts: &attempts, logMu: &logMu}
 		k.serve(realm)
 		kdcs = append(kdcs, k)
-		conf += fmt.Sprintf("  kdc = 127.0.0.1:%d\n", port)
+		ports = append(ports, port)
+		if srv == "" {
+			conf += fmt.Sprintf("  kdc = 127.0.0.1:%d\n", port)
+		}
 	}
 	conf += " }\n"
+	if srv != "" {
+		if c12DNS == nil {
+			return "config-error no DNS server", nil, 0
+		}
+		for _, tr := range []string{"tcp", "udp"} {
+			if strings.Contains(srv, tr) {
+				c12DNS.set("_kerberos._"+tr+"."+realm+".", ports)
+			}
+		}
+	}
 	defer func() {
 		for _, k := range kdcs {
 			k.close()
@@ -264,23 +288,24 @@ func TestC12(t *testing.T) {
 	type cse struct {
 		tcp, udp []string
 		limit    int
+		srv      string
 	}
 	var cases []cse
 	limits := []int{1, 10, 1465}
 	for _, tb := range behs {
 		for _, ub := range behs {
 			for _, l := range limits {
-				cases = append(cases, cse{[]string{tb}, []string{ub}, l})
+				cases = append(cases, cse{tcp: []string{tb}, udp: []string{ub}, limit: l})
 			}
 		}
 	}
 	// udp_preference_limit = 0: every request is larger, TCP is tried first and UDP is still permitted
 	for _, tb := range behs {
 		for _, ub := range behs {
-			cases = append(cases, cse{[]string{tb}, []string{ub}, 0})
+			cases = append(cases, cse{tcp: []string{tb}, udp: []string{ub}, limit: 0})
 		}
 	}
-	cases = append(cases, cse{[]string{"r", "c"}, []string{"r", "a"}, 0}, cse{[]string{"c", "r", "r"}, []string{"c", "c", "a"}, 0}, cse{[]string{"r", "a"}, []string{"a", "r"}, 0})
+	cases = append(cases, cse{tcp: []string{"r", "c"}, udp: []string{"r", "a"}, limit: 0}, cse{tcp: []string{"c", "r", "r"}, udp: []string{"c", "c", "a"}, limit: 0}, cse{tcp: []string{"r", "a"}, udp: []string{"a", "r"}, limit: 0})
 	countSilent := func(c cse) int {
 		n := 0
 		for _, b := range append(append([]string{}, c.tcp...), c.udp...) {
@@ -292,7 +317,7 @@ func TestC12(t *testing.T) {
 	}
 	if Thorough() {
 		for a := 0; a < 6*6*6*6; a++ {
-			c := cse{[]string{behs[a%6], behs[a/6%6]}, []string{behs[a/36%6], behs[a/216%6]}, limits[a%3]}
+			c := cse{tcp: []string{behs[a%6], behs[a/6%6]}, udp: []string{behs[a/36%6], behs[a/216%6]}, limit: limits[a%3]}
 			if countSilent(c) <= 2 {
 				cases = append(cases, c)
 			}
@@ -335,6 +360,24 @@ func TestC12(t *testing.T) {
 			}
 		}
 	}
+	// realms whose KDCs are located through DNS SRV records, published for one transport only or for both
+	if d, err := startVerifDNS(); err == nil {
+		c12DNS = d
+		defer func() { c12DNS = nil; d.close() }()
+		if _, addrs, e := net.LookupSRV("kerberos", "tcp", "SELFTEST.VERIF"); e == nil || len(addrs) != 0 {
+			v.Note("DNS cases: the resolver does not reach the harness's server, left out")
+		} else {
+			for _, srv := range []string{"tcp", "udp", "tcp+udp"} {
+				for _, l := range []int{1, 10, 1465} {
+					cases = append(cases, cse{tcp: []string{"a"}, udp: []string{"a"}, limit: l, srv: srv},
+						cse{tcp: []string{"r", "a"}, udp: []string{"a", "c"}, limit: l, srv: srv},
+						cse{tcp: []string{"a", "e6"}, udp: []string{"r", "a"}, limit: l, srv: srv})
+				}
+			}
+		}
+	} else {
+		v.Note("DNS cases: no loopback DNS server (" + err.Error() + "), left out")
+	}
 	var wg sync.WaitGroup
 	sem := make(chan struct{}, 24)
 	for _, c := range cases {
@@ -343,7 +386,7 @@ func TestC12(t *testing.T) {
 		go func(c cse) {
 			defer wg.Done()
 			defer func() { <-sem }()
-			c12Case(m, v, c.tcp, c.udp, c.limit)
+			c12CaseSRV(m, v, c.tcp, c.udp, c.limit, c.srv)
 		}(c)
 	}
 	wg.Wait()
@@ -352,8 +395,28 @@ func TestC12(t *testing.T) {
 }
 
 func c12Case(m *Model, v *Verdict, tcp, udp []string, limit int) {
-	res, attempts, reqLen := c12Run(tcp, udp, limit)
+	c12CaseSRV(m, v, tcp, udp, limit, "")
+}
+
+func c12CaseSRV(m *Model, v *Verdict, tcp, udp []string, limit int, srv string) {
+	res, attempts, reqLen := c12Run(tcp, udp, limit, srv)
 	desc := fmt.Sprintf("limit=%d tcp=%s udp=%s", limit, strings.Join(tcp, ","), strings.Join(udp, ","))
+	if srv != "" {
+		// a transport for which the realm publishes no SRV record has no servers: for the model and the oracle that
+		// is a transport whose every endpoint refuses (nothing is contacted, the transport fails)
+		desc += " kdcs-from-dns-srv=" + srv
+		eff := func(beh []string, tr string) []string {
+			if strings.Contains(srv, tr) {
+				return beh
+			}
+			out := make([]string, len(beh))
+			for i := range out {
+				out[i] = "r"
+			}
+			return out
+		}
+		tcp, udp = eff(tcp, "tcp"), eff(udp, "udp")
+	}
 	v.Case(desc, fmt.Sprintf("%d KDC limit=%d -> %s", len(tcp), limit, strings.Fields(res)[0]))
 	det := map[string]string{"case": desc, "go": res, "attempts": strings.Join(attempts, ","), "reqlen": itoa(reqLen)}
 	// walk orders as observed (endpoints that refuse leave no trace: they are appended; their position does
@@ -477,6 +540,10 @@ func c12Case(m *Model, v *Verdict, tcp, udp []string, limit int) {
 }
 
 func sigOf(tcp, udp []string, limit int) string {
+	return sigOfSRV(tcp, udp, limit)
+}
+
+func sigOfSRV(tcp, udp []string, limit int) string {
 	lim := "lt"
 	if limit == 1 {
 		lim = "1"
